@@ -11,6 +11,7 @@ type chanCore struct {
 	cap    int
 	closed bool
 	n      int // buffered count (values kept in typed wrapper)
+	epoch  uint64
 }
 
 func (c *chanCore) chanID() int { return c.id }
@@ -24,7 +25,17 @@ type Chan[T any] struct {
 
 func NewChan[T any](n int) *Chan[T] {
 	nextChanID++
-	return &Chan[T]{chanCore: chanCore{id: nextChanID, cap: n}}
+	return &Chan[T]{chanCore: chanCore{id: nextChanID, cap: n, epoch: runEpoch}}
+}
+
+// fresh clears what an earlier execution left in a channel that outlives executions
+// (package-level channels such as the default mux's error-report channel).
+func (c *Chan[T]) fresh() {
+	if c.epoch != runEpoch {
+		c.epoch = runEpoch
+		c.buf = nil
+		c.closed = false
+	}
 }
 
 var nextChanID int
@@ -56,6 +67,7 @@ func parkedOn(ch chanLike, send bool, self *Thread) (*Thread, *chanWait) {
 }
 
 func (c *Chan[T]) sendReady(self *Thread) bool {
+	c.fresh()
 	if c.closed {
 		return true // will panic
 	}
@@ -67,6 +79,7 @@ func (c *Chan[T]) sendReady(self *Thread) bool {
 }
 
 func (c *Chan[T]) recvReady(self *Thread) bool {
+	c.fresh()
 	if len(c.buf) > 0 || c.closed {
 		return true
 	}
@@ -178,6 +191,7 @@ func Close[T any](c *Chan[T]) {
 	if c == nil {
 		panic("close of nil channel")
 	}
+	c.fresh()
 	if c.closed {
 		panic("close of closed channel")
 	}
